@@ -147,11 +147,11 @@ def dataBlocks (total : Bytes) : List Bytes :=
 
 /-! ## Key derivation (functions.py) -/
 
-/-- `_derive_key`: CMAC in counter mode; a second block for 256-bit keys -/
+/-- `_derive_key`: CMAC in counter mode -- the CMACs of the derivation data for the iterations the code performs for
+    this key length (generated by executing `_derive_key`: `[1]` for 128-bit, `[1, 2]` for 256-bit keys), concatenated -/
 def deriveKey (c : CryptoOps) (key : Bytes) (const rights mode keyLen : Nat) : Bytes :=
-  cmac c key (Sb31Consts.kdfData const rights mode keyLen (Sb31Consts.kdfIterations.getD 0 0)) ++
-  (if keyLen = Sb31Consts.kdfTwoBlockKeyLen
-   then cmac c key (Sb31Consts.kdfData const rights mode keyLen (Sb31Consts.kdfIterations.getD 1 0)) else [])
+  (((Sb31Consts.kdfIterationsFor.find? (fun p => p.1 == keyLen)).map (·.2)).getD []).flatMap
+    (fun i => cmac c key (Sb31Consts.kdfData const rights mode keyLen i))
 
 def lookup (t : List (Nat × Nat)) (k : Nat) : Option Nat := (t.find? (fun p => p.1 == k)).map (·.2)
 
